@@ -109,9 +109,12 @@ PROPS = {
     },
     "C13": {
         "module": "Rl.Props.C13",
-        "targets": [{"name": "ed13", "gen": "ed13", "header_tokens": 9}],
+        "targets": [{"name": "ed13", "gen": "ed13", "header_tokens": 9},
+                    {"name": "direct", "gen": "direct", "header_tokens": 4}],
         "shards": {"quick": 8, "thorough": 16},
-        "rule": "ed13: emacs and vi key scripts on a pty with a validator always installed (scripted verdict table keyed on characters "
+        "rule": "direct: the non-terminal clause (reads from a pipe with a validator: the returned string is the accumulated "
+                "text of a Valid verdict; pending Incomplete / Invalid text at end of input is NOT returned) - same target as C18. "
+                "ed13: emacs and vi key scripts on a pty with a validator always installed (scripted verdict table keyed on characters "
                 "of the text: valid+message / incomplete / invalid with and without message / error; or MatchingBracketValidator), "
                 "Enter / C-j / brackets sprinkled at arbitrary points and cursor positions, inside searches and completions, with "
                 "hints, history and initial text. Oracle on the implementation: every Enter callback is checked against the verdict "
